@@ -233,6 +233,9 @@ type Func struct {
 	Iface   bool    `json:"iface,omitempty"`  // method of interface I: no body, not in the model's table as a body
 	Cb      int     `json:"cb"`               // kind of the callback parameter (index into cbKinds)
 	Res     []Res   `json:"res"`
+	// named results of equal type are printed as one field, `(r0, r1 string, r2 error)`: the number of
+	// result FIELDS is then smaller than the number of results
+	Grouped bool    `json:"grouped,omitempty"`
 	Body    []*Stmt `json:"body"`
 	Prelude bool    `json:"prelude,omitempty"` // errors.New: in the table, not printed
 	// a function of package b that package a only ever calls as (b.F)(...): the node registered for its
